@@ -6,6 +6,7 @@ an independent recursive printer, and the round trip through PrimitiveTree.from_
 Correspondence: node lists, observed strings, from_string results, compiled values, compileADF values
 and renameArguments states are recomputed by coq/Corr/C12.v.
 """
+import copy
 import functools
 import glob
 import itertools
@@ -597,7 +598,8 @@ def main(run):
         case = {"set": spec.label, "source": source, "nodes": node_names(nodes), "arguments": list(spec.pset.arguments)}
         stats["trees"] += 1
         stats["by_set"][spec.label] = stats["by_set"].get(spec.label, 0) + 1
-        stats["by_source"][source] = stats["by_source"].get(source, 0) + 1
+        skey = re.sub(r":(t|random)\d+", "", source)
+        stats["by_source"][skey] = stats["by_source"].get(skey, 0) + 1
         stats["max_nodes"] = max(stats["max_nodes"], len(nodes))
         if not well_formed(nodes):
             run.oracle_violation("generator/operator produced an ill-formed prefix list (C11 territory, reported here because "
@@ -674,6 +676,27 @@ def main(run):
                     run.oracle_violation("the tree read back from its printed form computes a different function", c2,
                                          observed={"reparsed": repr(a), "direct": repr(b)})
                     return
+        if adf is None and tuples:
+            # documented route: compile accepts the code string as well
+            tup = tuples[0]
+            a = guard(lambda: (gp.compile(s, spec.pset)(*tup) if spec.nargs > 0 else gp.compile(s, spec.pset)))
+            b = guard(interp, gp, nodes, spec, tup, None)
+            if a[0] != b[0] or (a[0] == "ok" and not same(a[1], b[1])):
+                c2 = dict(case)
+                c2["args"] = repr(tup)
+                run.oracle_violation("compile(str(tree), pset) and direct evaluation of the prefix tree differ", c2,
+                                     observed={"compiled": repr(a), "direct": repr(b)})
+                return
+        now = list(tree)
+        if len(now) != len(nodes) or any(x is not y for x, y in zip(now, nodes)):
+            # printing / compiling / reading must not change what the tree denotes
+            for tup in tuples[:2]:
+                a = guard(interp, gp, now, spec, tup, adf)
+                b = guard(interp, gp, nodes, spec, tup, adf)
+                if a[0] != b[0] or (a[0] == "ok" and not same(a[1], b[1])):
+                    run.oracle_violation("str / compile / from_string changed what the tree denotes", case,
+                                         observed={"after": repr(a), "before": repr(b)})
+                    return
         # --- Coq cases
         if not coq or len(nodes) > MAX_COQ_NODES:
             return
@@ -733,9 +756,27 @@ def main(run):
             return []      # operator preconditions (e.g. no primitive of a type) are C11's concern
         return [(t, which) for t in r[1] if len(t) <= 3000]
 
+    def read_case(spec, s):
+        r = guard(gp.PrimitiveTree.from_string, s, spec.pset)
+        case = {"kind": "from_string", "set": spec.label, "string": s, "observed": r[0] if r[0] == "raise" else node_names(r[1])}
+        run.note_case(case, True)
+        try:
+            ps = defs.name("ps", spec.c_pset())
+            obs = "None" if r[0] != "ok" else "(Some %s)" % coq_tree(spec, list(r[1]))
+            add("misc", "CRead subs %s %s %s" % (ps, cstr(s), obs), case)
+            if r[0] == "ok":
+                st = guard(str, r[1])
+                if st[0] == "ok":
+                    toks = [t for t in re.split("[ \t\n\r\f\v(),]", st[1]) if t != ""]
+                    add("misc", "CStr %s %s %s %s" % (ps, coq_tree(spec, list(r[1])), cstr(st[1]),
+                                                     clist([cstr(t) for t in toks])), case)
+        except Unsupported:
+            pass
+
     # ------------------------------------------------------------------ constants that coincide under ==
-    COINC_I = [0, 1, -2, 2, 2 ** 53]
-    COINC_F = [0.0, -0.0, 1.0, -2.0, 2.0, float(2 ** 53)]
+    COINC_I = [0, 1, -2, 2, 2 ** 53, 2 ** 53 + 1, 2 ** 64 + 1, -(2 ** 63), 10 ** 30]
+    COINC_F = [0.0, -0.0, 1.0, -2.0, 2.0, float(2 ** 53), 0.1 + 0.2, 1e16, 1e300, 5e-324, -1e-07, 123456789.12345679,
+               2.2250738585072014e-308, 1.7976931348623157e+308, float(10 ** 30)]
 
     def mk_coincide(typed_int=False, as_typed_object=False):
         """values that are == and hash-equal yet distinct objects (1 / 1.0 / True, 0 / 0.0 / -0.0, 2**53 / float(2**53)),
@@ -802,6 +843,7 @@ def main(run):
         read back and compared with the direct evaluation, and every function compiled earlier is called again"""
         pool = list(trees or [])
         kept = []          # (tree snapshot nodes, compiled callable, tuples) from earlier steps
+        old_strings = []
         counter = [0]
         for step in steps:
             kind = step[0]
@@ -856,6 +898,15 @@ def main(run):
                         return
             for t in pool[-6:]:
                 check_tree(spec, t, "seq:%s:%s" % (label, kind), tuples)
+            # strings printed at earlier steps (possibly with names that no longer exist) are read against the CURRENT set
+            for old_s in old_strings[-4:]:
+                read_case(spec, old_s)
+            for t in pool[-2:]:
+                st_now = guard(str, t)
+                if st_now[0] == "ok" and st_now[1] not in old_strings and len(st_now[1]) < 200:
+                    old_strings.append(st_now[1])
+            if kind == "rename":
+                guard(lambda: spec.pset.renameArguments(**kargs))     # same keywords again: the old names are gone, nothing happens
             if spec.nargs > 0 and pool:
                 t = pool[-1]
                 r = guard(gp.compile, t, spec.pset)
@@ -1016,6 +1067,180 @@ def main(run):
                     fam[1].named(77, "n77_%d" % variant)
                     main_spec.prim("neg", 1)
 
+        # ================================================================== hardening round
+        # (1)/(2) one TREE object used in sequences: print / compile / height, then change it in place through every route,
+        # then print / compile again; functions compiled before the change keep computing the tree they were compiled from
+        def tree_sequence(spec, label, nsteps):
+            t, _ = gen_tree(spec, 2, 4)
+            if t is None:
+                return
+            other, _ = gen_tree(spec, 1, 3)
+            kept = []
+            tuples = COINC_ARGS[:3] if spec.label.startswith("coincide") else grid(spec, 2)
+            for stepno in range(nsteps):
+                # fill whatever could be remembered on the tree / its nodes / the set
+                guard(str, t)
+                guard(lambda: t.height)
+                r = guard(gp.compile, t, spec.pset)
+                if r[0] == "ok" and spec.nargs > 0 and callable(r[1]):
+                    kept.append((list(t), r[1]))
+                    kept[:] = kept[-4:]
+                kind = rng.choice(["mutShrink", "mutInsert", "mutNodeReplacement", "mutEphemeral", "mutUniform", "cx", "ephvalue",
+                                   "setterm", "setslice", "deepcopy", "listops"])
+                if kind == "mutShrink":
+                    guard(gp.mutShrink, t)
+                elif kind == "mutInsert":
+                    guard(gp.mutInsert, t, spec.pset)
+                elif kind == "mutNodeReplacement":
+                    guard(gp.mutNodeReplacement, t, spec.pset)
+                elif kind == "mutEphemeral":
+                    guard(gp.mutEphemeral, t, rng.choice(["one", "all"]))
+                elif kind == "mutUniform":
+                    guard(gp.mutUniform, t, functools.partial(gp.genGrow, min_=0, max_=2), spec.pset)
+                elif kind == "cx" and other is not None:
+                    guard(gp.cxOnePoint, t, other)
+                elif kind == "ephvalue":
+                    idx = [i for i, n in enumerate(t) if isinstance(type(n), gp.MetaEphemeral)]
+                    if idx:
+                        n = t[rng.choice(idx)]
+                        n.value = type(n.value)(rng.choice([0, 1, 3, -2])) if isinstance(n.value, (int, float)) else n.value
+                elif kind == "setterm" and not spec.typed:
+                    idx = [i for i, n in enumerate(t) if n.arity == 0]
+                    t[rng.choice(idx)] = rng.choice(spec.argterms + [gp.Terminal(rng.choice([4, -6, 0.5, True]), False, object)]) \
+                        if spec.argterms else gp.Terminal(8, False, object)
+                elif kind == "setslice" and not spec.typed:
+                    sub, _ = gen_tree(spec, 0, 2)
+                    if sub is not None:
+                        i = rng.randrange(len(t))
+                        t[t.searchSubtree(i)] = list(sub)
+                elif kind == "deepcopy":
+                    t2 = copy.deepcopy(t)
+                    check_tree(spec, t, "treeseq:%s:original" % label, tuples)
+                    t = t2
+                elif kind == "listops" and not spec.typed:
+                    # list API: replace the whole content through slice assignment from position 0, then restore a prefix walk
+                    sub, _ = gen_tree(spec, 1, 2)
+                    if sub is not None:
+                        t[0:len(t)] = list(sub)
+                if len(t) > 400:
+                    return
+                for nodes_then, f in kept:
+                    for tup in tuples[:2]:
+                        got = guard(lambda: f(*tup))
+                        exp = guard(interp, gp, nodes_then, spec, tup, None)
+                        if got[0] != exp[0] or (got[0] == "ok" and not same(got[1], exp[1])):
+                            run.oracle_violation("a function compiled before the tree was modified in place no longer computes the tree it was compiled from",
+                                                 {"set": spec.label, "sequence": label, "step": kind, "args": repr(tup),
+                                                  "nodes": node_names(nodes_then)}, observed={"now": repr(got), "direct": repr(exp)})
+                            return
+                check_tree(spec, t, "treeseq:%s:%s" % (label, kind), tuples)
+
+        for k in range(run.scale(16, 140)):
+            sp = [mk_untyped(2, small=True), mk_coincide(), mk_typed(2, 1), mk_untyped(1), mk_float(2, False)][k % 5]
+            tree_sequence(sp, "t%d" % k, rng.randint(3, 6))
+
+        # (1) two individuals with identical main / ADF0 text but different ADF1, compiled alternately with the same sets
+        fam = mk_adf_family(1)          # main + ADF0(2 args) + ADF1(1 arg)
+        psets = [sp.pset for sp in fam]
+        a0 = "add(ADF1(%s), %s)" % (fam[1].pset.arguments[0], fam[1].pset.arguments[1])
+        mains = "sub(ADF0(ARG0, 3), ADF1(ARG0))" if fam[0].nargs == 1 else "sub(ADF0(ARG0, ARG1), ADF1(ARG0))"
+        bodies = ["add(%s, 1)", "mul(%s, -2)", "neg(%s)", "add(%s, 1)"]
+        done = []
+        for body in bodies * 2:
+            ind = [gp.PrimitiveTree.from_string(mains, psets[0]), gp.PrimitiveTree.from_string(a0, psets[1]),
+                   gp.PrimitiveTree.from_string(body % fam[2].pset.arguments[0], psets[2])]
+            comp = guard(gp.compileADF, ind, psets)
+            adf_trees = {sp.name: (list(t), sp) for sp, t in zip(fam[1:], ind[1:])}
+            tuples = grid(fam[0], 3)
+            if comp[0] != "ok":
+                run.oracle_violation("compileADF raised", {"set": fam[0].label, "source": "adf-same-text", "trees": [str(t) for t in ind]}, observed=comp)
+                continue
+            f = comp[1]
+
+            def call(tup, f=f, n=fam[0].nargs):
+                return guard(lambda: f(*tup) if n > 0 else f)
+            adf = dict(adf_trees)
+            adf["__compiled__"] = call
+            check_tree(fam[0], ind[0], "adf-same-text", tuples, adf=adf)
+            done.append((list(ind[0]), adf_trees, call, tuples))
+            for nodes_then, trees_then, call_then, tups_then in done:
+                for tup in tups_then:
+                    got = call_then(tup)
+                    exp = guard(interp, gp, nodes_then, fam[0], tup, trees_then)
+                    if got[0] != exp[0] or (got[0] == "ok" and not same(got[1], exp[1])):
+                        run.oracle_violation("a function returned by compileADF changed after another individual with the same text was compiled",
+                                             {"set": fam[0].label, "source": "adf-same-text", "args": repr(tup), "nodes": node_names(nodes_then)},
+                                             observed={"now": repr(got), "direct": repr(exp)})
+
+        # (1) two primitive sets with an ephemeral of the same name but different generators, used alternately
+        e1, e2 = mk_untyped(1, small=True), mk_untyped(2, small=True)
+        e1.eph("shared", functools.partial(gp.random.randint, 100, 109))
+        e2.eph("shared", functools.partial(gp.random.choice, [0.5, -0.25]), zok=False)
+        for _ in range(run.scale(6, 40)):
+            for sp in (e1, e2):
+                t, src = gen_tree(sp, 1, 3)
+                if t is not None:
+                    check_tree(sp, t, "shared-ephemeral-name", grid(sp, 2))
+
+        # (3) numpy scalars as actual arguments (type-exact comparison of the results)
+        try:
+            import numpy
+            np_args = [(numpy.int64(3), numpy.float64(0.5)), (numpy.float32(1.5), numpy.int8(-2)), (numpy.int64(2 ** 40), 2),
+                       (numpy.bool_(True), numpy.float64(-0.0))]
+        except Exception:  # noqa
+            np_args = []
+        with warnings.catch_warnings():
+            warnings.simplefilter("ignore")
+            npset = mk_untyped(2, small=True)
+            for _ in range(run.scale(10, 80)):
+                t, src = gen_tree(npset, 1, 3)
+                if t is not None and np_args:
+                    check_tree(npset, t, "numpy-args", [rng.choice(np_args) for _ in range(2)], coq=False)
+
+        # (4) rarely used routes: a callable registered as terminal without name, from_string through a subclass of PrimitiveTree,
+        #     an arity-5 primitive, twelve arguments (two-digit names) with one of them renamed
+        def seven():
+            return 7
+        rt = Spec(gp, "MAIN", [object] * 12, object, True)
+        rt.pyprim(operator.add, [object, object], object, "add")
+        rt.pyprim(lambda f: f(), [object], object, "call0")
+        rt.pyprim(lambda a, b, c, d, e: a - b + c * d - e, [object] * 5, object, "five_ary")
+        rt.pset.addTerminal(seven, object)
+        rt.values["seven"] = seven
+        rt.const(3, object)
+        rt.label = "routes"
+        rt.pset.renameArguments(ARG1="x")
+        A = rt.argterms
+
+        class Ind(gp.PrimitiveTree):
+            pass
+        m = rt.pset.mapping
+        k3 = m["3"]
+        route_trees = [[m["call0"], m["seven"]], [m["add"], A[1], A[10]], [m["add"], A[11], A[1]],
+                       [m["five_ary"], A[0], A[1], A[10], A[11], k3], [m["add"], [m["call0"], m["seven"]], A[2]],
+                       [m["five_ary"], k3, [m["add"], A[10], A[1]], A[9], [m["call0"], m["seven"]], A[11]], [m["seven"]]]
+
+        def flat(x):
+            return [y for e in x for y in (flat(e) if isinstance(e, list) else [e])]
+        r_tuples = [tuple(range(1, 13)), tuple(rng.randint(-9, 9) for _ in range(12))]
+        for shape in route_trees:
+            check_tree(rt, Ind(flat(shape)), "routes", r_tuples)
+        for _ in range(run.scale(6, 40)):
+            t, src = gen_tree(rt, 1, 3)
+            if t is not None:
+                check_tree(rt, Ind(list(t)), "routes-" + src, r_tuples)
+
+        # (5) boundaries: long unary chains, left- and right-deep combs
+        bs = mk_untyped(1, small=True)
+        bm = bs.pset.mapping
+        for depth in (1, 2, 10, 40, 60):
+            check_tree(bs, gp.PrimitiveTree([bm["neg"]] * depth + [bs.argterms[0]]), "chain", [(3,), (-1,)])
+            check_tree(bs, gp.PrimitiveTree([bm["sub"]] * depth + [bs.argterms[0]] + [bm["1"]] * depth), "left-comb", [(3,), (0,)])
+            right = []
+            for _ in range(depth):
+                right += [bm["sub"], bm["7"]]
+            check_tree(bs, gp.PrimitiveTree(right + [bs.argterms[0]]), "right-comb", [(3,), (10,)])
+
         for spec in specs:
             pool = []
             # heights 0..6 are all hit for every set: first a sweep, then random
@@ -1109,23 +1334,6 @@ def main(run):
             case = {"kind": "split", "string": s}
             run.note_case(case, True)
             add("misc", "CSplit %s %s" % (cstr(s), clist([cstr(t) for t in obs])), case)
-
-        def read_case(spec, s):
-            r = guard(gp.PrimitiveTree.from_string, s, spec.pset)
-            case = {"kind": "from_string", "set": spec.label, "string": s, "observed": r[0] if r[0] == "raise" else node_names(r[1])}
-            run.note_case(case, True)
-            try:
-                ps = defs.name("ps", spec.c_pset())
-                obs = "None" if r[0] != "ok" else "(Some %s)" % coq_tree(spec, list(r[1]))
-                add("misc", "CRead subs %s %s %s" % (ps, cstr(s), obs), case)
-                if r[0] == "ok":
-                    st = guard(str, r[1])
-                    if st[0] == "ok":
-                        toks = [t for t in re.split("[ \t\n\r\f\v(),]", st[1]) if t != ""]
-                        add("misc", "CStr %s %s %s %s" % (ps, coq_tree(spec, list(r[1])), cstr(st[1]),
-                                                         clist([cstr(t) for t in toks])), case)
-            except Unsupported:
-                pass
 
         sp_u, sp_t, sp_s, sp_user = specs[1], specs[7], specs[13], specs[14]
         fixed = [(sp_u, ""), (sp_u, "  "), (sp_u, "add(ARG0, 1)"), (sp_u, "add(ARG0,1)"), (sp_u, "add ARG0 1"), (sp_u, "add(ARG0"),
